@@ -13,6 +13,12 @@ impl DirectiveType {
     }
 }
 
+/// a directive carries its first argument (Directive::fmt indexes args[0]), and only the multi-line kinds ever get more
+/// (Directive::add_line refuses the others): include / after / tag have exactly one
+pub open spec fn dargs_ok(d: &Directive) -> bool {
+    d.args@.len() >= 1 && (!spec_multi_line(d@.dtype) ==> d.args@.len() == 1)
+}
+
 impl Directive {
     pub open spec fn view(&self) -> DView {
         DView {
